@@ -295,6 +295,70 @@ def _classify(a, b, covered, fill):
     return "both"
 
 
+# -- world-scale rasters: a lon/lat source spanning up to the whole globe, regional and world-scale destinations ----------
+WORLD_SRC = {
+    "globe": ((180, 360), Affine(1.0, 0, -180.0, 0, -1.0, 90.0)),
+    "east-hemi": ((180, 180), Affine(1.0, 0, 0.0, 0, -1.0, 90.0)),
+    "equatorial-band": ((60, 360), Affine(1.0, 0, -180.0, 0, -1.0, 30.0)),
+    "340deg": ((120, 340), Affine(1.0, 0, -170.0, 0, -1.0, 60.0)),
+    "europe": ((40, 60), Affine(1.0, 0, -15.0, 0, -1.0, 72.0)),
+}
+WORLD_DST = {
+    "utm33-tile": ((40, 40), Affine(5000.0, 0, 400000.0, 0, -5000.0, 5600000.0), "EPSG:32633"),
+    "laea-europe": ((40, 40), Affine(50000.0, 0, 3000000.0, 0, -50000.0, 4000000.0), "EPSG:3035"),
+    "mercator-region": ((40, 40), Affine(50000.0, 0, 0.0, 0, -50000.0, 6000000.0), "EPSG:3857"),
+    "mercator-world": ((40, 80), Affine(500000.0, 0, -20000000.0, 0, -500000.0, 10000000.0), "EPSG:3857"),
+    "antarctic-polar": ((40, 40), Affine(100000.0, 0, -2000000.0, 0, -100000.0, 2000000.0), "EPSG:3031"),
+}
+
+
+def gen_world(tier):
+    def g():
+        for sn in WORLD_SRC:
+            for dn in WORLD_DST:
+                for sc in ((64, 64), (45, 90)):
+                    for dc in ((16, 16), (40, 40)):
+                        yield (sn, dn, sc, dc)
+
+    return g
+
+
+def run_world(case):
+    """Chunked and in-memory reprojection of a lon/lat source of continental to global extent: the set of filled
+    (uncovered) destination pixels must be the same and no path may raise."""
+    sn, dn, sc, dc = case
+    sshape, sA = WORLD_SRC[sn]
+    dshape, dA, dcrs = WORLD_DST[dn]
+    sg, dg = GeoBox(sshape, sA, "EPSG:4326"), GeoBox(dshape, dA, dcrs)
+    data = (np.arange(sshape[0] * sshape[1]).reshape(sshape) % 200 + 1).astype("float32")
+    xx = wrap_xr(data, sg)
+    xd = wrap_xr(da.from_array(data, chunks=sc), sg)
+    r = R(outcome=f"world:{sn}->{dn}")
+    try:
+        whole = xr_reproject(xx, dg, resampling="nearest").values
+    except Exception as e:  # pylint: disable=broad-except
+        if not core.in_repo_tb(e):
+            raise
+        return r.fail(f"world:{sn}->{dn}:in-memory-raised:{type(e).__name__}", f"{case}: {type(e).__name__}: {str(e)[:200]}")
+    try:
+        lazy = xr_reproject(xd, dg, resampling="nearest", chunks=dc)
+        chunked, _ = execute(lazy.data)
+    except BlockMismatch as e:
+        return r.fail(f"world:{sn}->{dn}:block-shape", f"{case}: {e}")
+    except Exception as e:  # pylint: disable=broad-except
+        if not core.in_repo_tb(e):
+            raise
+        return r.fail(f"world:{sn}->{dn}:chunked-raised:{type(e).__name__}", f"{case}: chunked path raised {type(e).__name__}: {str(e)[:200]} "
+                                                                           f"(in-memory path: {int(np.isnan(whole).sum())} fill pixels of {whole.size})")
+    mw, mc = np.isnan(whole), np.isnan(chunked)
+    r.nontrivial = not bool(mw.all())
+    r.outcome += ":all-covered" if not mw.any() else ":partly-covered" if not mw.all() else ":uncovered"
+    if not (mw == mc).all():
+        r.fail(f"world:{sn}->{dn}:fill-mask-differs", f"{case}: in-memory result has {int(mw.sum())} fill pixels, chunked {int(mc.sum())} "
+                                                      f"({int((mc & ~mw).sum())} covered pixels lost, {int((mw & ~mc).sum())} extra)")
+    return r  # pixel values are not compared across CRSs (GDAL's approximate transformer differs between window sizes)
+
+
 # -- cross CRS: coverage and fill only ---------------------------------------------------------------------
 def gen_cross(tier):
     def g():
@@ -782,6 +846,8 @@ def slices(tier):
         e1.Slice("irregular-chunks", gen_irregular(tier), run_main,
                  "every composition of 8 rows / 8 columns as the source chunking x destinations x one-pixel and 3x4 destination chunks"),
         e1.Slice("cross-crs", gen_cross(tier), run_cross, "3857<->4326 coverage/fill classes"),
+        e1.Slice("world-scale", gen_world(tier), run_world,
+                 "lon/lat sources from regional to the whole globe x regional and world-scale destinations x chunkings: same fill mask, no exception"),
         e1.Slice("task-orders", gen_orders(tier), run_orders, "E3b: every task order within the deviation bound", shards=3),
     ]
 
